@@ -54,6 +54,7 @@ def run(ctx):
     rule_funnel(ctx, F)
     rule_room(ctx, F)
     rule_set(ctx, F)
+    rule_keepttl(ctx, F)
     # abandoned work is rolled back (shared rules)
     c09.rule_rbk(ctx, F)
     c09.rule_drop(ctx, F)
@@ -347,3 +348,35 @@ def rule_set(ctx, F):
         ctx.ob(R, b, "an existing record equal to the new one is not copied next to it", cmpd,
                "add_record_to_rrset puts the new record and *all* existing records into the replacement RRset without comparing "
                "them: a record that arrives twice in a transfer is stored, served and re-transferred twice", b.where(bb))
+
+
+def rule_keepttl(ctx, F):
+    """Deleting one record from an RRset leaves the TTL of the others alone: the RRset written back takes its TTL from the
+    RRset that is there, not from the record that is taken out (a zone reached through a deletion has to equal the zone built
+    from the remaining records)."""
+    R = "C10.ttl"
+    ctx.floor(R, 1)
+    bs = [b for p, b in F.bodies.items() if re.match(r"^zonetree::update::ZoneUpdater::<.*>::delete_record_from_rrset::\{closure#0\}$", p)]
+    if not ctx.anchor(R, "ZoneUpdater::delete_record_from_rrset", len(bs) == 1):
+        return
+    b = bs[0]
+    upd = [bb for bb, tt in b.calls() if re.search(r"::update_rrset$", tt["fn"] or "")]
+    news = [(bb, tt) for bb, tt in b.calls() if re.search(r"zonetree::types::Rrset::new$", tt["fn"] or "")]
+    sets = [(bb, tt) for bb, tt in b.calls() if re.search(r"zonetree::types::Rrset::set_ttl$", tt["fn"] or "")]
+    if not ctx.anchor(R, "Rrset::new and update_rrset in delete_record_from_rrset", len(news) == 1 and len(upd) >= 1, b.where()):
+        return
+    def from_existing(tm):
+        return any(s[0] == "call" and re.search(r"(Rrset|SharedRrset)::ttl$", s[1] or "") for s in walk(tm))
+    def from_deleted(tm):
+        return any(s[0] == "call" and re.search(r"Record::<.*>::ttl$", s[1] or "") for s in walk(tm))
+    ttl0 = b.term_of_operand(news[0][1]["args"][1])
+    ok = from_existing(ttl0) and not from_deleted(ttl0)
+    if not ok:
+        # or corrected before any of the existing records is copied over (the only way the new RRset gets content)
+        good = [bb for bb, tt in sets if from_existing(b.term_of_operand(tt["args"][1]))]
+        pushes = [bb for bb, tt in b.calls() if re.search(r"Rrset::push_data$", tt["fn"] or "")]
+        ok = bool(good) and bool(pushes) and all(any(b.dominates(g, pb) for g in good) for pb in pushes)
+    ctx.ob(R, b, "the remaining records keep the TTL of their RRset", ok,
+           "delete_record_from_rrset builds the smaller RRset with the TTL of the record that is deleted: removing "
+           "`192.0.2.1` (given with TTL 7200) from an RRset with TTL 300 leaves the other addresses with TTL 7200 -- the zone "
+           "differs from one built from the remaining records", b.where(news[0][0]))
